@@ -92,6 +92,7 @@ pub struct RunCtx {
     pub case_timeout: Duration,
     next_idx: u64,
     pub ran: u64,
+    case_started: Instant,
 }
 
 #[derive(Debug, Clone)]
@@ -196,6 +197,7 @@ impl RunCtx {
             case_timeout,
             next_idx: 0,
             ran: 0,
+            case_started: Instant::now(),
         }
     }
 
@@ -231,6 +233,7 @@ impl RunCtx {
             let _ = writeln!(f, "{}", rec);
             let _ = f.flush();
         }
+        self.case_started = Instant::now();
         self.watch.lock().unwrap().current = Some((id.to_string(), Instant::now() + t));
     }
 
@@ -250,6 +253,7 @@ impl RunCtx {
             "detail": detail,
             "sig": format!("{:016x}", res.sig),
             "nontrivial": res.nontrivial,
+            "ms": self.case_started.elapsed().as_millis() as u64,
             "obs": res.obs,
             "sample": res.sample,
         });
